@@ -1,6 +1,7 @@
 package main
 
 import (
+	"go/token"
 	"fmt"
 	"go/types"
 	"sort"
@@ -578,6 +579,27 @@ func runC20(c *Ctx) {
 		R.Ob("(*Server).Close/closes every connection", c.P.Pos(f.Pos()), len(s.Find(f, lClose)) == 1, "Close does not close the registered connections")
 	}
 	if f := c.A.Func("(*Server).Shutdown"); f != nil {
+		// every blocking wait in Shutdown itself can be ended by the context
+		nWait := 0
+		allInstrs(f, func(in ssa.Instruction) {
+			switch x := in.(type) {
+			case *ssa.Select:
+				if x.Blocking {
+					nWait++
+					R.Ob(c.siteKey(in, "wait can be ended by the context"), c.P.InstrPos(in), labelHas(c.stdLabels(in), "select-recv:invoke:Context.Done"), "blocking select without a case on ctx.Done(): Shutdown does not return when its context expires")
+				}
+			case *ssa.UnOp:
+				if x.Op == token.ARROW {
+					nWait++
+					R.Ob(c.siteKey(in, "wait can be ended by the context"), c.P.InstrPos(in), describe(x.X) == "invoke:Context.Done", "blocking receive from "+describe(x.X)+" outside a select with ctx.Done(): Shutdown does not return when its context expires")
+				}
+			}
+			if isStaticCall(in, "(*sync.WaitGroup).Wait") {
+				nWait++
+				R.Ob(c.siteKey(in, "wait can be ended by the context"), c.P.InstrPos(in), false, "Shutdown waits on the WaitGroup directly: it cannot return when its context expires")
+			}
+		})
+		R.Ob("(*Server).Shutdown/has a wait", c.P.Pos(f.Pos()), nWait >= 1, "Shutdown has no blocking wait at all")
 		R.Ob("(*Server).Shutdown/waits for the connections", c.P.Pos(f.Pos()), s.May(f)["go:(*Server).Shutdown$1"] || len(s.FindMay(f, "go:(*Server).Shutdown$1")) > 0, "Shutdown no longer waits for active connections")
 		if g := c.A.Func("(*Server).Shutdown$1"); g != nil {
 			R.Ob("(*Server).Shutdown$1/waits on the WaitGroup", c.P.Pos(g.Pos()), s.Must(g)["call:(*sync.WaitGroup).Wait"], "waiter does not wait for the connection goroutines")
